@@ -89,7 +89,8 @@ class Worker:
 
     def _local(self, frame, event, arg):
         if event == "line":
-            self.sched.events.append((self.tid, "line", frame.f_lineno))
+            self.sched.events.append((self.tid, "line", frame.f_code.co_name,
+                                      frame.f_lineno - frame.f_code.co_firstlineno))
             self.park()
         return self._local
 
